@@ -373,6 +373,7 @@ func runC17(c C17Case) ev.Outcome {
 		last = runRegOnce(c)
 		if last.fail == "" {
 			o.Overloaded = true
+			ev.Get("C17").AddExtra("overloaded_"+v.clause, 1)
 			return o
 		}
 		if !last.timing {
@@ -446,7 +447,8 @@ func regClasses(c C17Case) ev.Outcome {
 
 type regVerdict struct {
 	fail    string
-	timing  bool // the failed clause depends on the clock
+	timing  bool   // the failed clause depends on the clock
+	clause  string // short name of the (first) failed time clause, for the evidence counters
 	history any
 }
 
@@ -498,6 +500,7 @@ func runRegOnce(c C17Case) (v regVerdict) {
 	sentinel := peers[len(peers)-1]
 
 	hist := &regHistory{}
+	clause := ""
 	finish := func(fail string, timing bool) regVerdict {
 		hist.Peers = hist.Peers[:0]
 		for i, p := range peers {
@@ -506,7 +509,7 @@ func runRegOnce(c C17Case) (v regVerdict) {
 			r.Sentinel = p == sentinel
 			hist.Peers = append(hist.Peers, r)
 		}
-		return regVerdict{fail: fail, timing: timing, history: hist}
+		return regVerdict{fail: fail, timing: timing, clause: clause, history: hist}
 	}
 
 	// "does not prevent later plugins from registering": the (well-formed, timely) sentinel
@@ -531,6 +534,7 @@ func runRegOnce(c C17Case) (v regVerdict) {
 			break
 		}
 		if time.Now().After(deadline) {
+			clause = "sentinel-not-active-in-time"
 			return finish(fmt.Sprintf("the well-formed peer behind %d invalid ones was not active within %v", nInvalid, bound), true)
 		}
 		time.Sleep(time.Millisecond)
@@ -545,6 +549,7 @@ func runRegOnce(c C17Case) (v regVerdict) {
 		select {
 		case <-p.scriptDone:
 		case <-scriptDeadline:
+			clause = "register-call-stuck"
 			return finish(fmt.Sprintf("peer %d's RegisterPlugin call did not return although every peer ahead of it is settled", i), true)
 		}
 	}
@@ -563,6 +568,11 @@ func runRegOnce(c C17Case) (v regVerdict) {
 
 	// ----- oracle -----
 	var contentFails, timingFails []string
+	note := func(c string) {
+		if clause == "" {
+			clause = c
+		}
+	}
 	for i, p := range peers {
 		r := p.snapshot()
 		spec := specs[i]
@@ -589,6 +599,7 @@ func runRegOnce(c C17Case) (v regVerdict) {
 				msg := fmt.Sprintf("peer %d (name %q, index %q, mask 0x%x, stall %q) is invalid (%s) but received %s",
 					i, spec.Name, spec.Idx, uint32(spec.Mask), spec.Stall, why, strings.Join(bad, ", "))
 				if timingOnly {
+					note("late-peer-activated")
 					timingFails = append(timingFails, msg)
 				} else {
 					contentFails = append(contentFails, msg)
@@ -599,6 +610,7 @@ func runRegOnce(c C17Case) (v regVerdict) {
 		// valid: "becomes active": Synchronize (once), then exactly the events of its mask
 		id := fmt.Sprintf("peer %d (name %q, index %q, mask 0x%x)", i, spec.Name, spec.Idx, uint32(spec.Mask))
 		if r.NSync == 0 {
+			note("valid-peer-not-synchronized")
 			timingFails = append(timingFails, id+" is well-formed and timely but never received Synchronize"+regNote(r))
 			continue
 		}
@@ -612,6 +624,7 @@ func runRegOnce(c C17Case) (v regVerdict) {
 			}
 		}
 		if b := time.Duration(bad)*(regTimeout+reqTimeout) + slack; p.syncAt.Sub(t0) > b {
+			note("valid-peer-synchronized-late")
 			timingFails = append(timingFails, fmt.Sprintf("%s behind %d invalid peers was synchronized after %v, bound %v", id, bad, p.syncAt.Sub(t0), b))
 		}
 		if !subscribed(spec.Mask, int32(api.Event_REMOVE_POD_SANDBOX)) && r.Probes > 0 {
@@ -646,6 +659,7 @@ func runRegOnce(c C17Case) (v regVerdict) {
 		case extra != "":
 			contentFails = append(contentFails, fmt.Sprintf("%s: %s; it should receive exactly %s", id, extra, tags(want)))
 		case len(got) < len(want):
+			note("valid-peer-missed-events")
 			timingFails = append(timingFails, fmt.Sprintf("%s is active but received only %d of the %d fired events of its mask (%s of %s)", id, len(got), len(want), callTags(got), tags(want)))
 		}
 	}
